@@ -133,47 +133,61 @@ Definition node_is (n : N) (o : option member) : bool :=
   match o with Some m => m_node m =? n | None => false end.
 
 (* ------------------------------------------------------------------ correspondence *)
-(* canonical order for lists the property does not order: insertion sort on (key1, key2) *)
-Definition pair_leb (a b : N * N) : bool :=
-  (fst a <? fst b) || ((fst a =? fst b) && (snd a <=? snd b)).
-
-Fixpoint insert_pair (x : N * N) (l : list (N * N)) : list (N * N) :=
-  match l with
-  | [] => [x]
-  | y :: r => if pair_leb x y then x :: l else y :: insert_pair x r
-  end.
-
-Definition sort_pairs (l : list (N * N)) : list (N * N) := fold_right insert_pair [] l.
-
+(* A case is a history with the implementation's observations after every op; to keep the generated files
+   small every step is a flat list of small numbers (written by harness/cmd/c37):
+     [ op; masks; lens; misc; entries... ]
+   op      = kind + 3*(addr + 16*(node + 4*tag))          kind 0 Set, 1 Remove, 2 Empty
+   masks   = ret + 2*(E + 1024*F)     E = sum 2^a over uaddrs with Exists(a), F same with Get's found flag
+   lens    = base-64 digits MembersLen(node 0..3)
+   misc    = base-64 digits Len, pn, pa, then MembersLenOthers(node pn, addr pa) = (len, others, found)
+   entries = sorted: 2*(a + 16*(node + 4*tag)) for every a in uaddrs where Get(a) returned a member,
+                     1 + 2*(n + 4*(addr + 16*tag)) for every member of the per-node list of n in unodes *)
 Definition uaddrs : list N := [0; 1; 2; 3; 4; 5; 6; 7; 8; 9].   (* 9 used addresses + 1 never used *)
 Definition unodes : list N := [0; 1; 2; 3].                      (* 3 used nodes + 1 never used *)
 
-(* what the harness observes after every op *)
-Record obs := mkObs {
-  o_ret : bool;                                (* Set: added / Remove: removed / Empty: true *)
-  o_exists : list bool;                        (* Exists(a), a in uaddrs *)
-  o_get : list (option (N * N) * bool);        (* Get(a) = (Some (node, tag), found) *)
-  o_mlen : list N;                             (* MembersLen(n), n in unodes *)
-  o_nodes : list (list (N * N));               (* per-node list as sorted (addr, tag) *)
-  o_len : N;                                   (* Len *)
-  o_all : list (N * N);                        (* Traverse as sorted (addr, tag) *)
-  o_probe : N * N;                             (* (node, addr) given to MembersLenOthers *)
-  o_others : N * N * bool
-}.
+Fixpoint insert_n (x : N) (l : list N) : list N :=
+  match l with
+  | [] => [x]
+  | y :: r => if x <=? y then x :: l else y :: insert_n x r
+  end.
+Definition sort_n (l : list N) : list N := fold_right insert_n [] l.
 
-Definition observe (ret : bool) (s : pool) (probe : N * N) : obs :=
-  mkObs ret
-    (map (p_exists s) uaddrs)
-    (map (fun a => let '(m, f) := p_get s a in
-                   (match m with Some x => Some (m_node x, m_tag x) | None => None end, f)) uaddrs)
-    (map (p_members_len s) unodes)
-    (map (fun n => sort_pairs (map (fun x => (m_addr x, m_tag x)) (nodelist (members s) n))) unodes)
-    (p_len s)
-    (sort_pairs (map (fun x => (m_addr x, m_tag x)) (p_all s)))
-    probe
-    (p_members_len_others s (fst probe) (snd probe)).
+Definition b2n (b : bool) : N := if b then 1 else 0.
 
-Definition pair_eqb (a b : N * N) : bool := (fst a =? fst b) && (snd a =? snd b).
+Fixpoint mask (f : N -> bool) (l : list N) : N :=
+  match l with
+  | [] => 0
+  | a :: r => (if f a then 2 ^ a else 0) + mask f r
+  end.
+
+Fixpoint digits64 (l : list N) : N :=
+  match l with
+  | [] => 0
+  | d :: r => d + 64 * digits64 r
+  end.
+
+Definition enc_member (x : member) : N := m_addr x + 16 * (m_node x + 4 * m_tag x).
+
+Definition decode_op (c : N) : op :=
+  let k := c mod 3 in
+  let r := c / 3 in
+  let a := r mod 16 in
+  let r2 := r / 16 in
+  if k =? 0 then OSet (mkMember a (r2 mod 4) (r2 / 4))
+  else if k =? 1 then ORemove a
+  else OEmpty.
+
+Definition observe (ret : bool) (s : pool) (pn pa : N) : list N :=
+  let '(ol, oo, of) := p_members_len_others s pn pa in
+  (b2n ret + 2 * (mask (p_exists s) uaddrs + 1024 * mask (fun a => snd (p_get s a)) uaddrs))
+  :: digits64 (map (p_members_len s) unodes)
+  :: digits64 [p_len s; pn; pa; ol; oo; b2n of]
+  :: sort_n (flat_map (fun a => match fst (p_get s a) with
+                                | Some x => [2 * (a + 16 * (m_node x + 4 * m_tag x))]
+                                | None => []
+                                end) uaddrs
+             ++ flat_map (fun n => map (fun x => 1 + 2 * (n + 4 * (m_addr x + 16 * m_tag x)))
+                                       (nodelist (members s) n)) unodes).
 
 Fixpoint list_eqb' {A} (eqb : A -> A -> bool) (a b : list A) : bool :=
   match a, b with
@@ -182,32 +196,15 @@ Fixpoint list_eqb' {A} (eqb : A -> A -> bool) (a b : list A) : bool :=
   | _, _ => false
   end.
 
-Definition opt_pair_eqb (a b : option (N * N)) : bool :=
-  match a, b with
-  | Some x, Some y => pair_eqb x y
-  | None, None => true
-  | _, _ => false
-  end.
-
-Definition obs_eqb (a b : obs) : bool :=
-  Bool.eqb (o_ret a) (o_ret b)
-  && list_eqb' Bool.eqb (o_exists a) (o_exists b)
-  && list_eqb' (fun x y => opt_pair_eqb (fst x) (fst y) && Bool.eqb (snd x) (snd y)) (o_get a) (o_get b)
-  && list_eqb' N.eqb (o_mlen a) (o_mlen b)
-  && list_eqb' (list_eqb' pair_eqb) (o_nodes a) (o_nodes b)
-  && (o_len a =? o_len b)
-  && list_eqb' pair_eqb (o_all a) (o_all b)
-  && pair_eqb (o_probe a) (o_probe b)
-  && (let '(x1, x2, x3) := o_others a in let '(y1, y2, y3) := o_others b in
-      (x1 =? y1) && (x2 =? y2) && Bool.eqb x3 y3).
-
-(* a case = a history with the implementation's observations after every op *)
-Fixpoint check_from (s : pool) (c : list (op * obs)) : bool :=
+Fixpoint check_from (s : pool) (c : list (list N)) : bool :=
   match c with
   | [] => true
-  | (o, ob) :: r =>
-      let '(s', ret) := step s o in
-      obs_eqb (observe ret s' (o_probe ob)) ob && check_from s' r
+  | (opc :: masks :: lens :: misc :: entries) :: r =>
+      let '(s', ret) := step s (decode_op opc) in
+      let pn := (misc / 64) mod 64 in
+      let pa := (misc / 4096) mod 64 in
+      list_eqb' N.eqb (observe ret s' pn pa) (masks :: lens :: misc :: entries) && check_from s' r
+  | _ => false
   end.
 
-Definition check (c : list (op * obs)) : bool := check_from init c.
+Definition check (c : list (list N)) : bool := check_from init c.
